@@ -456,6 +456,32 @@ def signal_facts():
     return emits, auto, registered
 
 
+_VAR = re.compile(r'^(?!using\b|typedef\b|return\b|class\b|struct\b|enum\b|namespace\b|template\b|friend\b|extern\b|Q[A-Z_]+\b)'
+                  r'((?:static|inline|thread_local|const|constexpr|mutable)\s+)*[\w:<>,\*&\s]+?[\s\*&](\w+)\s*(=[^;]*|\{[^;]*\})?;\s*$')
+STATEFUL_FILES = ['formatters/patternformatter.cpp', 'formatters/prettyformatter.cpp', 'attrhandlers/seqnumberattr.cpp',
+                  'filters/duplicatefilter.cpp']
+
+
+def shared_mutable_statics(files=STATEFUL_FILES):
+    """file-scope variables of the stateful built-in handlers that are neither const nor thread_local: state shared by ALL
+    objects of the class, i.e. by pipelines under DIFFERENT locks — outside what one pipeline's mutual exclusion protects"""
+    found = []
+    for f in files:
+        for ln in strip_comments(rd(f)).split('\n'):
+            if not ln or ln[0].isspace() or ln[0] in '#}{/':
+                continue
+            head = ln.split('=')[0]
+            if '(' in head:
+                continue
+            m = _VAR.match(ln)
+            if not m:
+                continue
+            quals = set(re.findall(r'\b(static|thread_local|const|constexpr)\b', head))
+            if not (quals & {'const', 'constexpr', 'thread_local'}):
+                found.append('%s: %s' % (f, m.group(2)))
+    return found
+
+
 def coq_instr(x):
     return {'Lock': 'Lock %s', 'Unlock': 'Unlock %s'}[x[0]] % x[1] if x[0] in ('Lock', 'Unlock') else x[0]
 
@@ -509,4 +535,8 @@ def generate():
     out += 'Definition src_signal_emits_in_send : bool := %s.\n' % ('true' if emits else 'false')
     out += 'Definition src_signal_autoconnect : bool := %s.\n' % ('true' if auto else 'false')
     out += 'Definition src_signal_type_registered : bool := %s.\n' % ('true' if registered else 'false')
+    shared = shared_mutable_statics()
+    out += '(* the stateful built-in handlers keep their state per object or per thread: file-scope variables that are neither const\n'
+    out += '   nor thread_local (shared by pipelines under different locks) found: %s *)\n' % (', '.join(shared) or 'none')
+    out += 'Definition src_handlers_no_shared_mutable_state : bool := %s.\n' % ('false' if shared else 'true')
     return {'SrcConc.v': out}
